@@ -74,6 +74,38 @@ extern int g_sl_snk_err;
 #define SL_SRC_NOERR_O (g_sl_src_nneg == __CPROVER_old(g_sl_src_nneg) && g_sl_src_err == __CPROVER_old(g_sl_src_err))
 
 /* ------------------------------------------------------------------------ */
+/* The two single-octet endpoint functions of src/endpoints/core.c that
+ * rfc1055.c calls directly, over the stub drivers of stubs/rfc1055_io.h
+ * (enforced here by targets of their own; the frame loops are checked against
+ * these contracts).  One driver call: 1 = one octet moved, negative = the
+ * driver's value, nothing moved. */
+int source_get_octet(Source *source, void *data)
+__CPROVER_requires(SL_SOURCE_OK(source) && SL_SRC_WF)
+__CPROVER_requires(__CPROVER_w_ok(data, 1) && SL_SEP(data) && !__CPROVER_same_object(data, source))
+__CPROVER_assigns(SL_SRC_ASSIGNS, __CPROVER_object_upto(data, 1))
+__CPROVER_ensures(__CPROVER_return_value == 1 || __CPROVER_return_value < 0)
+__CPROVER_ensures(IMPLIES(__CPROVER_return_value == 1,
+    __CPROVER_old(g_sl_src_pos) < g_sl_src_len && g_sl_src_pos == __CPROVER_old(g_sl_src_pos) + 1
+    && *(unsigned char *)data == SL_S(__CPROVER_old(g_sl_src_pos)) && SL_SRC_NOERR_O))
+__CPROVER_ensures(IMPLIES(__CPROVER_return_value < 0,
+    g_sl_src_pos == __CPROVER_old(g_sl_src_pos) && SL_SRC_ERR_O(__CPROVER_return_value)))
+/* the end of the stream is reported as a failure (-ENODATA unless the driver
+ * fails otherwise) */
+__CPROVER_ensures(IMPLIES(__CPROVER_old(g_sl_src_pos) == g_sl_src_len, __CPROVER_return_value < 0))
+;
+
+int sink_put_octet(Sink *sink, const unsigned char data)
+__CPROVER_requires(SL_SINK_OK(sink))
+__CPROVER_assigns(SL_SNK_ASSIGNS)
+__CPROVER_ensures(__CPROVER_return_value == 1 || __CPROVER_return_value < 0)
+__CPROVER_ensures(IMPLIES(__CPROVER_return_value == 1,
+    SL_SNK_GOT1_O(data) && g_sl_snk_nneg == __CPROVER_old(g_sl_snk_nneg) && g_sl_snk_err == __CPROVER_old(g_sl_snk_err)
+    && g_sl_snk_budget == __CPROVER_old(g_sl_snk_budget)))
+__CPROVER_ensures(IMPLIES(__CPROVER_return_value < 0,
+    g_sl_snk_pos == __CPROVER_old(g_sl_snk_pos) && g_sl_snk_val == __CPROVER_old(g_sl_snk_val)
+    && __CPROVER_return_value == g_sl_snk_err && g_sl_snk_nneg == (size_t)(__CPROVER_old(g_sl_snk_nneg) + 1u)
+    && g_sl_snk_nneg > __CPROVER_old(g_sl_snk_nneg) && g_sl_snk_budget <= __CPROVER_old(g_sl_snk_budget)))
+;
 
 /* context set-up: classic mode starts inside a frame (NORMAL), start-of-frame
  * mode waits for the start delimiter */
